@@ -3,6 +3,7 @@ package main
 import (
 	"bytes"
 	"fmt"
+	"os"
 	"runtime"
 	"sort"
 	"strings"
@@ -447,23 +448,94 @@ func (c *ctx) c16WinNoisy(e []byte, level int, full bool) c16Win {
 	return w
 }
 
-func c16GenNoise(c *ctx) {
-	junkT := &c16Real{trzsz.VerifNewLineTransfer(true, false)}  // TmuxOutputJunk
-	plainT := &c16Real{trzsz.VerifNewLineTransfer(false, false)} // mayHasJunk argument decides
-	winT := &c16Real{trzsz.VerifNewLineTransfer(false, true)}   // windowsProtocol
+// ---- a real function that does not return ----
+//
+// Every call into the real readers runs under a guard: the caller publishes what it is about
+// to call with, a watchdog goroutine looks every 250 ms whether the same call is still in
+// flight.  A call that has not returned after c16GuardLimit is reported with its input
+// (key <fn>-hang), the cases and findings collected so far are written out, and the process
+// exits: the stuck goroutine cannot be stopped, and a loop that grows its buffer would take
+// the whole run down with it (which is how a mutant once produced an empty run).
+const c16GuardLimit = 6 * time.Second
 
+type c16Call struct {
+	fn     string // "strip", "recvLine-junk", "recvLine-windows"
+	input  []byte
+	chunks [][]byte
+	tys    []string
+}
+
+type c16Guard struct {
+	cur  atomic.Pointer[c16Call]
+	beat atomic.Int64
+}
+
+func c16NewGuard(c *ctx) *c16Guard {
+	g := &c16Guard{}
+	go func() {
+		last, since := int64(-1), time.Now()
+		for {
+			time.Sleep(250 * time.Millisecond)
+			b := g.beat.Load()
+			call := g.cur.Load()
+			if call == nil || b != last {
+				last, since = b, time.Now()
+				continue
+			}
+			if time.Since(since) < c16GuardLimit {
+				continue
+			}
+			detail := fmt.Sprintf("fn=%s input=%s", call.fn, hx(call.input))
+			if call.chunks != nil {
+				detail = fmt.Sprintf("fn=%s expect=%s chunks=%s", call.fn, c16TysStr(call.tys), c03ChunksStr(call.chunks))
+			}
+			// always on record, even when the list of findings is full
+			c.violations = append(c.violations, map[string]string{"key": "tmux-" + call.fn + "-hang",
+				"what": "the real " + call.fn + " did not return within " + c16GuardLimit.String() + " on this input (the run was cut short here)", "detail": detail})
+			c.count("guard:gave-up")
+			c.finish()
+			os.Exit(0)
+		}
+	}()
+	return g
+}
+
+func (g *c16Guard) enter(call *c16Call) { g.cur.Store(call); g.beat.Add(1) }
+func (g *c16Guard) leave()              { g.cur.Store(nil); g.beat.Add(1) }
+
+func c16GenNoise(c *ctx) {
+	junkT := &c16Real{trzsz.VerifNewLineTransfer(true, false)}   // TmuxOutputJunk
+	plainT := &c16Real{trzsz.VerifNewLineTransfer(false, false)} // mayHasJunk argument decides
+	winT := &c16Real{trzsz.VerifNewLineTransfer(false, true)}    // windowsProtocol
+
+	guard := c16NewGuard(c)
+	strip := func(b []byte) []byte {
+		guard.enter(&c16Call{fn: "strip", input: b})
+		got := junkT.t.StripTmuxStatusLine(append([]byte(nil), b...))
+		guard.leave()
+		return got
+	}
+	emitStrip := func(nontrivial bool, b []byte) []byte {
+		got := strip(b)
+		c.emit(nontrivial, "strip_tmux", hx(got), hx(b))
+		return got
+	}
 	emitJunk := func(nontrivial bool, chunks [][]byte, tys []string, junkArg bool, viaConfig bool) []string {
 		t := plainT
 		if viaConfig {
 			t = junkT
 		}
+		guard.enter(&c16Call{fn: "recvLine-junk", chunks: chunks, tys: tys})
 		res := t.run(chunks, tys, junkArg)
+		guard.leave()
 		modelJunk := junkArg || viaConfig
 		c.emit(nontrivial, "junk_run", c03ResStr(res), c16TysStr(tys), str01(modelJunk), c03ChunksStr(chunks))
 		return res
 	}
 	emitWin := func(nontrivial bool, chunks [][]byte, tys []string) []string {
+		guard.enter(&c16Call{fn: "recvLine-windows", chunks: chunks, tys: tys})
 		res := winT.run(chunks, tys, false)
+		guard.leave()
 		c.emit(nontrivial, "win_run", c03ResStr(res), c16TysStr(tys), c03ChunksStr(chunks))
 		return res
 	}
@@ -478,31 +550,157 @@ func c16GenNoise(c *ctx) {
 		c.emit(true, "letters", sb.String(), "-")
 	}
 
-	// ---- 1. stripTmuxStatusLine: corpus of transfer_test.go, then dense random ----
+	// ---- 1. stripTmuxStatusLine: corpus of transfer_test.go ----
+	c16P := "\x1bP=1s\x1b\\\x1b[?25l\x1b[?12l\x1b[?25h\x1b[5 q\x1bP=2s\x1b\\" // what tmux really sends
 	{
-		P := "\x1bP=1s\x1b\\\x1b[?25l\x1b[?12l\x1b[?25h\x1b[5 q\x1bP=2s\x1b\\"
+		P := c16P
 		corpus := []string{"ABC123", "ABC" + P + "123", "ABC" + P + "123" + P + "XYZ", "ABC" + P + "123" + P + P + P + "XYZ"}
 		for i := 0; i < len(P); i++ {
 			corpus = append(corpus, "ABC"+P+"123"+P[:len(P)-i])
 		}
 		for _, s := range corpus {
-			got := junkT.t.StripTmuxStatusLine([]byte(s))
-			c.emit(true, "strip_tmux", hx(got), hx([]byte(s)))
+			emitStrip(true, []byte(s))
 			c.count("strip:corpus")
 		}
+	}
+	// dense random input for stripTmuxStatusLine: no promise, correspondence only.  It runs
+	// AFTER the systematic strata (it is the stratum most likely to drive a broken strip
+	// loop into not returning, and what the others find should be on record by then).
+	stripSoup := func() {
 		for i := 0; i < c.pick(4000, 80000); i++ {
 			n := c.rng.Intn(24)
+			if c.rng.Intn(4) == 0 {
+				n = c.rng.Intn(160)
+			}
 			b := make([]byte, n)
 			for j := range b {
 				b[j] = c.c16Pick("\x1bP=\\ab")
+				if n > 24 && c.rng.Intn(3) != 0 {
+					b[j] = 'a'
+				}
 			}
 			if c.rng.Intn(2) == 0 {
 				b = append(b, c.c16StatusPair()...)
 				b = append(b, byte('a'+c.rng.Intn(3)))
 			}
-			got := junkT.t.StripTmuxStatusLine(append([]byte(nil), b...))
-			c.emit(bytes.Contains(b, c16StatusBegin), "strip_tmux", hx(got), hx(b))
+			emitStrip(bytes.Contains(b, c16StatusBegin), b)
 			c.count("strip:random")
+		}
+	}
+
+	// ---- 1b. status redraws at EVERY offset of lines of realistic length (DATA lines are
+	// long): one and several redraws per line, every family stripTmuxStatusLine handles,
+	// directly through stripTmuxStatusLine and through the real recvLine junk path in every
+	// chunking class; direct oracle: what comes back is the original line ----
+	{
+		exact := func(n int) []byte {
+			b := make([]byte, n)
+			for i := range b {
+				b[i] = c16PayloadAlphabet[c.rng.Intn(len(c16PayloadAlphabet))]
+			}
+			return b
+		}
+		type fam struct {
+			name string
+			mk   func() []byte
+		}
+		fams := []fam{
+			{"tmux", func() []byte { return []byte(c16P) }},
+			{"minimal", func() []byte { return []byte("\x1bP=\x1bP=\x1b\\") }},
+			{"long", func() []byte {
+				return []byte("\x1bP=1s\x1b\\\x1b[?25l\x1b[1;1H\x1b[30m\x1b[42m[0] 0:bash* 1:vim- \"host\" 04:29 01-Oct\x1b[m\x1b[?12l\x1b[?25h\x1bP=2s\x1b\\")
+			}},
+			{"random", func() []byte { return c.c16StatusPair() }},
+			{"double", func() []byte { return []byte(c16P + c16P) }},
+		}
+		lens := []int{0, 19, 25, 64, 120}
+		if c.thorough() {
+			lens = []int{0, 1, 19, 24, 25, 40, 64, 96, 120, 160, 250}
+		}
+		// text in front of the line: none, a prompt, and the two halves of a redraw the reader
+		// came in on (an incomplete status string in front of the marker is just unrelated text)
+		pres := []string{"", "user@host:~/work/dir$ tsz a.bin\r\n", "25h\x1b[5 q\x1bP=2s\x1b\\", "\x1bP=1s\x1b\\\x1b[?25l\x1b[?12l"}
+		ins := func(line []byte, o int, x []byte) []byte {
+			return append(append(append([]byte(nil), line[:o]...), x...), line[o:]...)
+		}
+		for _, n := range lens {
+			line := append([]byte("#DATA:"), exact(n)...)
+			for o := 0; o <= len(line); o++ {
+				for fi, f := range fams {
+					st := f.mk()
+					s := ins(line, o, st)
+					variant := f.name
+					// several redraws per line: a second one at a later offset
+					if fi == 0 && o%2 == 1 {
+						o2 := o + c.rng.Intn(len(line)-o+1)
+						s = ins(s, len(st)+o2, []byte(c16P))
+						variant = "two"
+					}
+					// a truncated redraw at the very end of the line as well
+					if fi == 3 && o%3 == 0 {
+						s = append(s, c.c16StatusTruncated()...)
+						variant = "random+truncated"
+					}
+					// directly through stripTmuxStatusLine
+					got := emitStrip(true, s)
+					c.count("status-offset:strip")
+					if !bytes.Equal(got, line) {
+						c.violate("strip-unrecovered:"+variant, "stripTmuxStatusLine does not give back the line into which status redraws were inserted",
+							fmt.Sprintf("offset=%d payload-bytes=%d line=%q input=%s got=%s", o, n, line, hx(s), hx(got)))
+					}
+					// through recvLine, with and without text in front, in every chunking class
+					for pi, pre := range pres {
+						if pi == 1 && (o+fi)%2 == 1 || pi >= 2 && (o+fi)%4 != pi-2 {
+							continue
+						}
+						stream := append(append([]byte(pre), s...), '\n')
+						if n >= 100 && fi == 0 && o%5 == 0 { // tmux wraps long lines as well
+							var w []byte
+							for i, b := range stream[:len(stream)-1] {
+								if i > 0 && i%80 == 0 {
+									w = append(w, '\r', '\n')
+								}
+								w = append(w, b)
+							}
+							stream = append(w, '\n')
+						}
+						at := len(pre) + o
+						chunkings := [][][]byte{{stream}}
+						if at+1 < len(stream) { // boundary inside the first control string
+							chunkings = append(chunkings, [][]byte{stream[:at+1], stream[at+1:]})
+						}
+						if at+4 < len(stream) && (o+fi)%2 == 0 { // and right behind it
+							chunkings = append(chunkings, [][]byte{stream[:at], stream[at : at+4], stream[at+4:]})
+						}
+						if n <= 64 || o%4 == 0 {
+							chunkings = append(chunkings, c.split(stream, 1))
+						}
+						chunkings = append(chunkings, c.split(stream, 1+c.rng.Intn(16)))
+						for ci, cs := range chunkings {
+							res := emitJunk(true, cs, []string{"DATA", "DATA"}, ci%2 == 0, ci%2 == 1)
+							c.count("status-offset:recvLine")
+							if len(res) < 1 || res[0] != "d"+hx(line) {
+								c.violate("tmux-unrecovered:status-offset:"+variant, "a protocol line with a tmux status redraw inserted at this offset is not recovered by recvLine",
+									fmt.Sprintf("offset=%d payload-bytes=%d want=%q stream=%s chunks=%s results=%s", o, n, line, hx(stream), c03ChunksStr(cs), c03ResStr(res)))
+							}
+						}
+					}
+				}
+			}
+		}
+		// plain text in front of a redraw, every length up to 130: the offsets inside
+		// stripTmuxStatusLine are absolute
+		for k := 0; k <= 130; k++ {
+			for _, f := range fams {
+				pre := bytes.Repeat([]byte("A"), k)
+				s := append(append(append([]byte(nil), pre...), f.mk()...), []byte("xyz")...)
+				got := emitStrip(true, s)
+				c.count("status-offset:strip-prefix")
+				if want := append(pre, []byte("xyz")...); !bytes.Equal(got, want) {
+					c.violate("strip-unrecovered:prefix:"+f.name, "stripTmuxStatusLine does not remove a complete status redraw behind plain text",
+						fmt.Sprintf("prefix-bytes=%d input=%s got=%s", k, hx(s), hx(got)))
+				}
+			}
 		}
 	}
 
@@ -601,6 +799,62 @@ func c16GenNoise(c *ctx) {
 			}
 		}
 	}
+	// shapes RECORDED from a real tmux 3.3a (group e2e-tmux, raw stream at the client's pty while trz/tsz wrote
+	// to the client tty): whole redraws in front of a line, a redraw bracketed by the synchronized-update
+	// strings at every position inside a line; the shapes the reader is NOT built for (a redraw without the
+	// brackets inside a line, a redraw that scrolls another pane with a bare LF) are correspondence cases only
+	{
+		statusRedraw := "\x1b[?25l\x1b[30m\x1b[42m\x1b[30d[main] 0:trz*" + strings.Repeat(" ", 67) + "\"vm\" 03:37 01-Oct-26\x1b(B\x1b[m\x1b[?12l\x1b[?25h\x1b[19;1H"
+		var border strings.Builder
+		border.WriteString("\x1b[?25l")
+		for r := 1; r <= 29; r++ {
+			fmt.Fprintf(&border, "\x1b[%d;70H\xe2\x94\x82", r)
+		}
+		border.WriteString("\x1b(B\x1b[m\x1b[?12l\x1b[?25h\x1b[29;71H")
+		shapes := []struct {
+			name   string
+			text   string
+			inside bool // recoverable at any position behind the '#'
+			front  bool // recoverable in front of the line
+		}{
+			{"status-redraw", statusRedraw, false, true},
+			{"status-redraw-sync", "\x1bP=1s\x1b\\" + statusRedraw + "\x1bP=2s\x1b\\", true, true},
+			{"two-redraws-sync", "\x1bP=1s\x1b\\" + statusRedraw + "\x1bP=2s\x1b\\\x1bP=1s\x1b\\\x1b[?25l\x1b[30m\x1b[42m\x1b[30d[main]\x1b[5;1H\x1bP=2s\x1b\\", true, true},
+			{"pane-border-redraw", border.String(), false, true},
+			{"other-pane-scroll-batch", "\x1b[1;7r\x1b[1;1H\x1b[2S\x1b[5;6Hecho one line from the other pane\r\none line from the other pane\x1b[K\r\ntmx$ \x1b[K\x1b[1;30r\x1b[13;1H", false, true},
+			{"other-pane-scroll-bare-lf", "\x1b[1;7r\x1b[7;1H\n\x1b[Abusy line 1392 of the other pane\r\n\x1b[K\x1b[1;30r\x1b[13;6H", false, false},
+		}
+		for _, sh := range shapes {
+			for rep := 0; rep < c.pick(4, 40); rep++ {
+				ty := c16Types[c.rng.Intn(len(c16Types))]
+				line := []byte("#" + ty + ":" + string(c.c16Payload(60)))
+				next := []byte("#" + ty + ":" + string(c.c16Payload(8)))
+				var positions []int
+				positions = append(positions, 0)
+				for pos := 1; pos <= len(line); pos++ {
+					if rep == 0 || c.rng.Intn(8) == 0 {
+						positions = append(positions, pos)
+					}
+				}
+				for _, pos := range positions {
+					r := append(append(append([]byte(nil), line[:pos]...), sh.text...), line[pos:]...)
+					stream := append(append(append(r, '\n'), next...), '\n')
+					cs := c.split(stream, 1+c.rng.Intn(40))
+					res := emitJunk(true, cs, []string{ty, ty, ty}, true, pos%2 == 0)
+					promised := (pos == 0 && sh.front) || (pos > 0 && sh.inside)
+					if !promised {
+						c.count("tmux:recorded-shape:no-promise:" + sh.name)
+						continue
+					}
+					c.count("tmux:recorded-shape:" + sh.name)
+					if len(res) < 2 || res[0] != "d"+hx(line) || res[1] != "d"+hx(next) {
+						c.violate("tmux-unrecovered:recorded:"+sh.name, "a protocol line with a redraw recorded from a real tmux is not recovered by recvLine",
+							fmt.Sprintf("want=%q position=%d chunks=%s results=%s", line, pos, c03ChunksStr(cs), c03ResStr(res)))
+					}
+				}
+			}
+		}
+	}
 	for i := 0; i < c.pick(6000, 60000); i++ {
 		ty := c16Types[c.rng.Intn(len(c16Types))]
 		tmuxCase(ty, c.c16Payload(40), c.rng.Intn(2), c.rng.Intn(4), c.rng.Intn(6), c.rng.Intn(5)/4, "random")
@@ -635,6 +889,8 @@ func c16GenNoise(c *ctx) {
 				fmt.Sprintf("stream=%s chunks=%s results=%s", hx(stream), c03ChunksStr(cs), c03ResStr(res)))
 		}
 	}
+
+	stripSoup()
 
 	// ---- 4. Windows console: documented noise => payload recovered (direct oracle) ----
 	winCase := func(level int, full bool) {
